@@ -13,6 +13,9 @@ import (
 // ---------------------------------------------------------------------------
 
 var valuePoolInt = []string{"0", "1", "2", "3", "5", "7", "10", "12", "42", "-3", "100"}
+
+// numbers at the edges of the narrower integer types
+var valuePoolBig = []string{"255", "256", "65535", "65536", "2147483647", "2147483648", "4294967296", "9223372036854775807", "-9223372036854775808", "-2147483649"}
 var valuePoolFloat = []string{"0.5", "1.5", "2.25", "-0.75", "3.0", "10.125"}
 var valuePoolText = []string{"v", "val", "x", "abc", "Hello", "zz", "v1", "v2", "val_a", "val_b", ""}
 var valuePoolList = []string{"a,b,c", "1,2,3", "x", "a,,b", "4,5"}
@@ -39,6 +42,9 @@ var longValues = []string{strings.Repeat("x", 300), strings.Repeat("ab,", 40), "
 func genValue(r *Rng, style string) string {
 	if r.Chance(0.004) {
 		return pick(r, longValues)
+	}
+	if r.Chance(0.01) && style != StoreText && style != StoreJSON {
+		return pick(r, valuePoolBig)
 	}
 	switch style {
 	case StoreInts:
@@ -136,6 +142,18 @@ func genStore(r *Rng, n int, style string) []KV {
 	keys := make([]string, 0, len(chosen))
 	for k := range chosen {
 		keys = append(keys, k)
+	}
+	if r.Chance(0.01) {
+		// keys longer than any small fixed buffer
+		for _, n := range []int{65, 256, 300} {
+			if r.Bool() {
+				k := "k" + strings.Repeat("y", n)
+				if !chosen[k] {
+					chosen[k] = true
+					keys = append(keys, k)
+				}
+			}
+		}
 	}
 	sort.Strings(keys)
 	out := make([]KV, len(keys))
